@@ -457,6 +457,20 @@ theorem gen_lock_content :
     (4194304 : Int) < 10 ^ (GitBugModel.Gen.Commands.lockRefuseLen - 1).toNat := by
   decide
 
+/-- an empty lock file — what a process leaves that dies between creating the file (exclusively)
+and writing its pid into it — is not a number: every later open answers with the parser's error
+and leaves the file where it is.  Nothing in the source removes it (known finding
+`C19/empty-lock-never-recovered`, replayed on real processes through the yield point
+`lock:after-create`). -/
+theorem empty_lock_not_a_number (limit refuse : Nat) (hr : 0 < refuse) :
+    readLock limit refuse "" = .error .notANumber := by
+  unfold readLock
+  have h0 : utf8Len "".toList = 0 := by decide
+  have ht : "".toList.take limit = [] := by simp
+  simp only [h0, ht, Nat.min_zero]
+  rw [if_neg (by omega)]
+  rfl
+
 example : readLock 10 10 (renderPid 4194303) = .ok 4194303 := lock_roundtrip 10 10 4194303 (by decide) (by decide) (by decide)
 example : readLock 10 7 (renderPid 4194303) = .error .tooLong := lock_too_long 10 7 4194303 (by decide) (by decide) (by decide)
 
